@@ -30,6 +30,11 @@ class _ConsistentSet(object):
             # consistent and orderable.
             # This fails on python 3 when elements are unorderable
             # but we keep it in a try as it's faster.
+            if any(isinstance(e, (set, frozenset)) for e in set_sequence):
+                # Sets are only partially ordered (by inclusion): sorting
+                # them does not raise but the result depends on the input
+                # order.
+                raise TypeError("sets are not totally ordered")
             self._sequence = sorted(set_sequence)
         except (TypeError, decimal.InvalidOperation):
             # If elements are unorderable, sorting them using their hash.
@@ -141,11 +146,17 @@ class Hasher(Pickler):
     # additional 'obj' argument in Python 3.14
     def _batch_setitems(self, items, *args):
         # forces order of keys in dict to ensure consistent hash.
+        items = list(items)
         try:
             # Trying first to compare dict assuming the type of keys is
             # consistent and orderable.
             # This fails on python 3 when keys are unorderable
             # but we keep it in a try as it's faster.
+            if any(isinstance(k, (set, frozenset)) for k, _ in items):
+                # Sets are only partially ordered (by inclusion): sorting
+                # them does not raise but the result depends on the input
+                # order.
+                raise TypeError("sets are not totally ordered")
             Pickler._batch_setitems(self, iter(sorted(items)), *args)
         except TypeError:
             # If keys are unorderable, sorting them using their hash. This is
